@@ -133,3 +133,21 @@ def enum_switches(fn, local, enum=None):
 
 def fmt_where(fn, b=None):
     return fn.where(b)
+
+
+def str_consts(fn):
+    """every string literal mentioned in the body (statements and call arguments), in block order"""
+    out = []
+    for b, blk in enumerate(fn.blocks):
+        if blk["cleanup"]:
+            continue
+        for st in blk["stmts"]:
+            if st[0] == "assign":
+                for op in st[2].get("ops", ()):
+                    if "str" in op:
+                        out.append(op["str"])
+        t = blk["term"]
+        for op in t.get("args", ()):
+            if "str" in op:
+                out.append(op["str"])
+    return out
